@@ -54,7 +54,7 @@ func (ex *Exec) doCall(fr *Frame, instr ssa.CallInstruction, c *ssa.CallCommon, 
 				return nst, res, false
 			}
 		}
-		if m, ok := externModels[callee.String()]; ok {
+		if m, ok := externModels[externName(callee)]; ok {
 			if nst, res, ok := m(ex, fr, instr, c, args, pc, st); ok {
 				return nst, res, false
 			}
